@@ -183,7 +183,12 @@ pub fn struct_mutate(bytes: &[u8], kind: u64, sel: u64, arg: u64) -> Option<Muta
             }
             let i = 1 + (arg % (v.len() as u64 - 1)) as usize;
             let an_assertion = Item::map_flat(vec![Item::tagged(TAG_LEAF, Item::text("knows")), Item::tagged(TAG_LEAF, Item::uint(arg % 7))]);
-            v[i] = match arg % 6 {
+            v[i] = match arg % 9 {
+                // a wrapped envelope is not an assertion, whatever it wraps: an elided digest, a node with an elided
+                // subject, an assertion
+                6 => Item::tagged(TAG_ENVELOPE, Item::bytes(vec![0x5au8; 32])),
+                7 => Item::tagged(TAG_ENVELOPE, Item::array(vec![Item::bytes(vec![0x33u8; 32]), an_assertion.clone()])),
+                8 => Item::tagged(TAG_ENVELOPE, an_assertion.clone()),
                 0 => Item::tagged(TAG_LEAF, Item::uint(arg % 1000)),
                 1 => Item::uint(arg % 1000),
                 2 => Item::tagged(TAG_ENVELOPE, Item::tagged(TAG_LEAF, Item::uint(3))),
